@@ -5,12 +5,18 @@ V = os.path.dirname(os.path.dirname(os.path.abspath(__file__)))
 props = [json.loads(l)['id'] for l in open(os.path.join(V, 'properties.jsonl'))]
 TECH = 'symbolic execution of rustc MIR (mirsym) + z3 (integers with exact wrap-around), counterexamples replayed natively'
 NOTE = 'trusted: rustc MIR pretty-printer, mirsym MIR semantics and library models (differentially validated against the native build), z3; bounds and assumptions are in the evidence file'
+SCHED = ' Bounded scripts of real public schedule modifications from Schedule::empty (menu of valid arguments computed from the actual state), all instance attributes symbolic; the six schedule-level properties share one exploration whose result is cached under a hash of /repo\'s model+solution sources and of the machinery (a changed tree is re-explored).'
 CLAIMED = {
+ 'C10': ('bounded: after every script within the bound every stored tour is a valid depot..depot path of own-type trips, formation(node) = vehicles whose tour contains it (no duplicates), formation/track/depot limits hold (symbolic limits), listings are sorted and match the tours, every real vehicle is in exactly one rotation cycle with exact counters.' + SCHED, 'DESIGN.md section 3, C10'),
+ 'C13': ('bounded: per-operation effect and frame conditions (provider loses exactly the moved nodes, receiver gains them / only conflict-free ones, displaced trips handed back, emptied vehicle disappears, depot-only operations change no activity, other vehicles, other formations and the input schedule untouched) on every script within the bound.' + SCHED, 'DESIGN.md section 3, C13'),
+ 'C02': ('bounded: formation limit = min of present limits (C17 job), and on every schedule reachable by the scripts no formation exceeds min(type limit, segment limit), no slot exceeds its tracks, no real depot exceeds total or per-type capacity, unlisted types never start there; flow bounds of the start solution are outside (C14/C07 not claimed).' + SCHED, 'DESIGN.md section 3, C02'),
+ 'C05': ('bounded: after reassign_end_depots_consistent_with_transitions on every schedule reachable by the scripts, every vehicle ends in the depot where its successor in the stored cycle starts, activities are unchanged, and starts/ends balance per (depot, type); that the stored cycles are the optimiser\'s is C16, that they partition the vehicles is C15/C10.' + SCHED, 'DESIGN.md section 3, C05'),
+ 'C01': ('decomposed: can_reach = documented rule (C17), tour constructors and edits only return valid tours (C12), and on every schedule reachable by the scripts every itinerary is depot..depot, pairwise connectable by the reference rule and type-compatible; the end-to-end solve run is outside.' + SCHED, 'DESIGN.md section 3, C01'),
  'C16': ('wiring: server::solve_instance and internal::run executed symbolically with every stage an uninterpreted function; the schedule handed to the JSON writer equals, for every interpretation of the stages (EUF validity, z3), reassign_end_depots(set_transitions(LS(improve_depots(MCF)), optimised transitions)) in both branches, and the reported objective value is evaluated on exactly that schedule. A violation is confirmed natively by comparing the server answer with the reference composition on the repository instances', 'DESIGN.md section 3, C16'),
  'C15': ('bounded: every script of real rotation-cycle operations (add to own cycle, remove, move, add at the end, update, 3-opt + replace_cycle) up to the stated length from the empty transition, on tours built by the real Tour::new with symbolic attributes, keeps the cycles a partition of the vehicles, the lookup and the empty-cycle list in step with the cycles, and every counter and both totals equal to recomputation; Transition::new_fast likewise. The accept-if-better rule of the optimisation is rapid_solve code (trusted, outside)', 'DESIGN.md section 3, C15'),
  'C06': ('kernel obligations only: the 3-opt neighbourhood index ranges neither panic (overflow-checked MIR) nor wrap around (release MIR) for every cycle length within the bound and enumerate exactly the triples i<j<k; the overflow depot can host every vehicle the covering circulation needs (feasibility precondition of network_simplex). Termination of the registry-crate loops is trusted', 'DESIGN.md section 3, C06'),
  'C12': ('bounded: for all attribute values (times incl. ties and zero turnaround, locations, asymmetric dead-head matrix, shunting, forbid flag) and all tour/path shapes within the bound, Tour::insert_path / remove / sub_path / check_removable / Tour::new of the real MIR agree with the prefix-path-suffix reference semantics; counterexamples are replayed natively', 'DESIGN.md section 3, C12'),
- 'C09': ('bounded: tour level - after Tour::new, insert_path, remove, replace_start/end_depot every cached figure (useful duration, service distance, dead-head distance incl. Infinity, costs, visits-maintenance) equals recomputation from the node list by an independent reference model, for all attribute values and all shapes within the bound', 'DESIGN.md section 3, C09'),
+ 'C09': ('bounded: schedule level - costs, unserved passengers, maintenance violation, depot spawn sets and every stored tour\'s cached figures equal recomputation after every script within the bound (shared exploration, see C10); tour level - after Tour::new, insert_path, remove, replace_start/end_depot every cached figure (useful duration, service distance, dead-head distance incl. Infinity, costs, visits-maintenance) equals recomputation from the node list by an independent reference model, for all attribute values and all shapes within the bound', 'DESIGN.md section 3, C09'),
  'C17': ('bounded: for all attribute values (times incl. ties, locations, dead-head matrix, shunting, limits present/absent, capacities) on shapes with <= 3 trips + 1 slot + 2 depots, the loaded network equals the reference construction, can_reach equals the documented rule for every ordered node pair, predecessors/successors are exactly the connectable sets, the overflow depot can host every vehicle', 'DESIGN.md section 3, C17'),
 }
 NA = {
